@@ -55,6 +55,25 @@ theorem c08_remove_spec (g : Grid) (hi : Inv g) (a : Aid) :
     rw [hp]
     cases g.multi <;> simp
 
+/-- an agent whose `pos` was written by another space: `pos a = some p` but cell `p` of this grid does not hold it -/
+theorem c08_remove_foreign (g : Grid) (a : Aid) (p : Coord) (hp : g.pos a = some p) (hf : a ∉ g.content p) :
+    (g.multi = true → g.remove a = (g, .err .value)) ∧
+    (g.multi = false → (g.remove a).2 = .ok ∧ (g.remove a).1.content p = [] ∧ (g.remove a).1.pos a = none ∧
+      (∀ b, b ≠ a → (g.remove a).1.pos b = g.pos b) ∧
+      ∀ b, b ∈ g.content p → g.pos b = some p → ¬ Inv (g.remove a).1) := by
+  constructor
+  · intro hm; unfold remove; rw [hp]; simp [hm, hf]
+  · intro hm
+    have hc : (g.remove a).1.content p = [] := remove_single_content g a p hm hp
+    have hok : (g.remove a).2 = .ok := by unfold remove; rw [hp]; simp [hm]
+    refine ⟨hok, hc, remove_ok_pos g a hok, fun b hb => remove_pos_other g a b hb, ?_⟩
+    intro b hb hpb hinv
+    have hba : b ≠ a := fun e => hf (e ▸ hb)
+    have : (g.remove a).1.pos b = some p := by rw [remove_pos_other g a b hba, hpb]
+    have hmem := (hinv.pos_content b p).mp this
+    rw [hc] at hmem
+    cases hmem
+
 /-- the pair `remove_agent`; `place_agent` that all movers end with -/
 theorem removePlace_contents (g : Grid) (hi : Inv g) (a : Aid) (q cur : Coord) (hcur : g.pos a = some cur)
     (hok : (removePlace g a q).2 = .ok) :
